@@ -225,7 +225,14 @@ def _compare_case(impl, model):
         if len(stm) >= 3 and stm[1] == "err" and stm[2] == "ENanArith" and sti[1] == "ok":
             # the model refuses to let a NaN enter the books; Python books it (and raises at the
             # next update).  Accept iff the implementation state now really carries a NaN.
-            has_nan = any("nan" in v for key, v in si["state"].items() if key.endswith(" scal"))
+            # (histories dumped with dump="last" carry a state only at their last step: a NaN in the books stays there)
+            st_nan = si["state"] or next((s_["state"] for s_ in impl["steps"][k:] if s_["state"]), {})
+            has_nan = any("nan" in v for key, v in st_nan.items() if key.endswith(" scal"))
+            if not has_nan and not st_nan:
+                # no state was dumped at all (the history ends in an error): the NaN shows as the error Python raises at
+                # its next update
+                has_nan = any(len(s_["status"]) >= 3 and s_["status"][1] == "err" and s_["status"][2].startswith("ENan")
+                              for s_ in impl["steps"][k + 1:])
             if has_nan:
                 return ("drift" if drift else "equal"), {"nan_refused_at": k}
             return "diff", {"step": k, "what": "status", "impl": sti, "model": stm}
